@@ -505,7 +505,7 @@ def F(name, fn, strat, q=500, t=6000, np_seed=True, omit_seed=False, sh=1):
         forms = ["int", "int", "numpy"] + (["omitted"] if omit_seed else [])  # omitted: only where the documented default is a fixed seed
         strat = strat.flatmap(lambda s: st.sampled_from(forms).map(lambda f: dict(s, seed_form=f)) if "seed" in s else st.just(s))
         fn = _seed_forms(fn)
-    return Facet(name, fn, strategy=lambda tier, s=strat: s, budget={"quick": q, "thorough": t},
+    return Facet(name, fn, strategy=lambda tier, s=strat: s, budget={"quick": 2 * q if sh == 1 else q, "thorough": t},
                  shards={"quick": sh, "thorough": 4}, min_nontrivial={"quick": q // 12, "thorough": t // 12}, case_timeout=60)
 
 
